@@ -66,20 +66,23 @@ class C18(Property):
     design_ref = "5.18"
     level_text = (
         "Lean 4 theorems over the model with CurveBuffers threaded explicitly INCLUDING stale contents and SliderPath as a state machine, "
-        "for every arithmetic instance: borrowed_eq_owned; owned_takes_borrowed_leaves; compute_ignores_buffers_modulo_bezier "
-        "(for NON-EMPTY control points and well-formed buffers the observable curve / panic / fuel outcome is independent of the buffer "
-        "contents, for all segment kinds, GIVEN BezierPure = the same statement for approximate_bezier alone, which is an explicit "
-        "hypothesis; linear, Catmull and accepted-arc segments never touch the scratch buffers); the full statement "
+        "for every arithmetic instance: borrowed_eq_owned; owned_takes_borrowed_leaves; compute_ignores_buffers_partial (UNCONDITIONAL: for "
+        "NON-EMPTY control points whose typed points are all linear or Catmull, and well-formed buffers, the observable curve / panic / fuel "
+        "outcome is independent of the buffer contents); compute_ignores_buffers_modulo_bezier (the same for ALL segment kinds - Bezier, "
+        "B-spline, perfect curves incl. their Bezier fallback - GIVEN BezierPure = the same statement for approximate_bezier alone, an "
+        "explicit hypothesis that is not proved); the full statement "
         "compute_ignores_buffers_statement is proved FALSE of the code (compute_ignores_buffers_statement_false, witness F7: "
         "BorrowedCurve::new(pts) then Curve::new(&[]) on the same buffers returns the stale path); cache_invariant (every SliderPath "
         "operation preserves 'cache empty or holds a curve Curve::new produces for the current fields', and every accessor returns such a "
         "curve) and access_reflects_current (induction over arbitrary operation histories). Model tied to the code bit-for-bit on "
         "operation sequences over shared buffers, F7 reproduced identically by model and code.")
     technique = "Lean 4 proof (lock-step relational induction over the segment loop; induction over operation histories) + differential correspondence on op sequences"
-    required_theorems = ["borrowed_eq_owned", "owned_takes_borrowed_leaves", "compute_ignores_buffers_modulo_bezier",
+    required_theorems = ["borrowed_eq_owned", "owned_takes_borrowed_leaves", "compute_ignores_buffers_partial",
+                         "compute_ignores_buffers_core", "compute_ignores_buffers_modulo_bezier",
                          "compute_ignores_buffers_statement_false", "f7_witness", "staleBufs_from_borrowed", "cache_invariant",
                          "access_reflects_current", "curveWithBufs_spec"]
     partial_theorems = {
+        "compute_ignores_buffers_partial": "restricted to non-empty control points (the full statement is false: F7) whose typed points are linear or Catmull; perfect-curve and Bezier/B-spline segments are covered only by compute_ignores_buffers_modulo_bezier",
         "compute_ignores_buffers_modulo_bezier": "restricted to non-empty control points (the full statement is false: F7) and conditional on BezierPure (approximate_bezier does not depend on the contents of its four scratch vectors) - a named hypothesis, not proved in Lean; it is exercised by the correspondence and by the oracle (sequences of Bezier computations of different degrees on one buffer set vs fresh buffers)",
         "cache_invariant": "says the cached curve is one Curve::new produces for the current fields on SOME buffers; that the buffers are irrelevant is the theorem above (non-empty points only)",
     }
